@@ -156,6 +156,10 @@ func (pe *PolicyEngine) getPeer(p string) (k8s.Peer, error) {
 			if namespaceStr == metav1.NamespaceNone {
 				namespaceStr = metav1.NamespaceDefault
 			}
+			// a pod may be given without its namespace object (as supported by the `list` command)
+			if err := pe.resolveSingleMissingNamespace(namespaceStr); err != nil {
+				return nil, err
+			}
 			nsObj, ok := pe.namespacesMap[namespaceStr]
 			if !ok {
 				return nil, errors.New(netpolerrors.NotFoundNamespace)
